@@ -44,6 +44,9 @@ type Ctx struct {
 	funcTables       map[*ssa.Global][]*ssa.Function
 	satPanics        map[token.Pos]bool
 	satPanicsDecided bool
+	inPlaceMemo      map[*ssa.Function][]int
+	inPlaceBusy      map[*ssa.Function]bool
+	keptMemo         map[interface{}]bool
 
 	// statistics for evidence
 	NPackages int
